@@ -6,6 +6,7 @@ use std::fmt::Write as _;
 use syn::visit::Visit;
 
 mod find;
+mod namespaces;
 mod x509;
 use find::*;
 
@@ -275,6 +276,8 @@ fn main() {
     state_fields(&repo, &mut out);
     x509::x509_constants(&repo, &mut out);
     emitted_literals(&repo, &mut out);
+    namespaces::leaf_constants(&repo, &mut out);
+    namespaces::namespaces(&repo, &mut out);
 
     let header = "(* GENERATED by /verif/translator from /repo's current source on every run. Do not edit. *)\nFrom Isomdl Require Import Lib.Bytes.\nOpen Scope N_scope.\n\n";
     write_if_changed(&format!("{outdir}/Constants.v"), &format!("{header}{}", out.constants));
